@@ -18,9 +18,10 @@ PROPS = {
         explanation="should_format_node (real text): inside an ignore region or under a `stylua: ignore` directive the decision is Skip. "
                     "format_stmt / format_last_stmt: Skip => the node is returned unchanged. format_block (real loop, inductive invariant over the "
                     "peekable iterator): for every statement whose decision (under the context folded from the ignore start/end toggles) is Skip, the "
-                    "output pair (statement, semicolon token) is identical to the input pair; same for the last statement.",
+                    "output pair (statement, semicolon token) is identical to the input pair; same for the last statement. "
+                    "format_multiline_table (real loop): the context is folded the same way over the fields of a table.",
         not_decided=["the string matching that recognises the directive text inside a comment (comment.lines().map(trim) — str iterators): assumed as has_ignore()/toggled()",
-                     "format_multiline_table's loop (it toggles the ignore state per field and calls format_field): not under contract; format_field itself is (unit table)"],
+                     "format_multiline_table's loop (it toggles the ignore state per field and calls format_field) is under contract (unit table: field i is formatted under the context folded from the toggles of the i-1 fields before it); that a Skip decision for a field returns the field unchanged is format_field's contract; should_expand (string search for comments) is assumed"],
         assumptions=["Block::stmts_with_semicolon / with_stmts / Peekable::next/peek behave as sequences (class A/B)"]),
     "C09": dict(units=["ctx", "block", "lib", "sort", "range"], bounded=[dict(kind="lib", witnesses="RANGE_SORT_WITNESSES"), dict(kind="lib", witnesses="RANGE_BLANK_WITNESSES"), dict(kind="range", kinds=["before", "blank-lines", "after", "panic", "error", "timeout"]), dict(kind="ignore", kinds=["ignored-changed"], case_contains="+range@")],
         explanation="should_format_node (real text) returns NotInRange iff start < range.start or end > range.end for all positions and bounds. "
@@ -115,12 +116,13 @@ PROPS = {
                      "byte-identical output across carriers is implied only through `same Config`; equality of the library's output for equal Configs is determinism of format_code, not proved"],
         assumptions=["ec4rs Properties::get::<T>() returns the parsed value of key T (wrappers); the string parsers generated by property_choice! are macro output (assumed)"],
         technique="Kani complete enumeration of finite enum domains + Verus contracts on mechanically extracted real functions"),
-    "C07": dict(bounded=[dict(kind="lib", witnesses="C07_BOUNDED"), dict(kind="corpus", kinds=["panic", "error", "timeout"]), dict(kind="inject", kinds=["panic", "error"])], units=["expr", "block", "ctx", "lib", "tok", "cli_io", "diff", "config", "econf", "sort", "args", "table", "stmt", "luau", "collapse", "bodies", "range"], kani=["shape"],
+    "C07": dict(bounded=[dict(kind="lib", witnesses="C07_BOUNDED"), dict(kind="corpus", kinds=["panic", "error", "timeout"]), dict(kind="inject", kinds=["panic", "error"])], units=["expr", "block", "ctx", "lib", "tok", "cli_io", "diff", "config", "econf", "sort", "args", "table", "stmt", "luau", "collapse", "bodies", "range", "lists", "assign"], kani=["shape"],
         explanation="Totality of the library call, decided per function under contract: inside every function whose real text is verified, each panic!/unreachable!/assert!/expect/unwrap, "
                     "each usize subtraction/addition/multiplication and every recursion or loop (decreases) is an obligation Verus discharges for all inputs (one `.total` obligation per function and "
                     "feature set). format_code returns Err(ParseError) iff the input does not parse and never Ok otherwise; format_ast without verification always returns Ok. "
                     "Kani: Shape/Indent arithmetic cannot overflow within stated input bounds.",
-        not_decided=["functions not under contract (assignment tactics, table/function-body layout, call chains, Luau types, trivia_util): their panic sites are not covered; coverage is measured in the evidence (panic_sites)",
+        not_decided=["functions not under contract (hang_punctuated_list, function parameters, most Luau declarations, trivia_util): their panic sites are not covered; coverage is measured in the evidence (panic_sites)",
+                     "format_singleline_table's `assert!(trailing_trivia.is_empty())` is dropped from the verified text as a stated assumption (format_field returns no trailing comments for a table without comments: should_expand decides that, by string search, outside the contracts)",
                      "running time in proportion to input size and stack depth: no cost semantics in the verifier",
                      "panics inside full_moon (e.g. BinOp::precedence `expect(\"invalid token\")`) and other dependencies"],
         assumptions=["machine integers: indent arithmetic (nesting depth x indent_width) and Display widths are treated as non-overflowing (stated preconditions / holes); Kani bounds: indent width < 2^16, nesting < 2^24, widths < 2^32"],
@@ -134,7 +136,7 @@ PROPS = {
                      "slice::sort_by_key is assumed to be a stable sort by the name (class B wrapper); the leading-trivia swap (comments of the group's first line stay on top) is a hole: comment preservation inside a sorted group is only exercised by the bounded witnesses",
                      "get_expression_kind (what counts as a require / GetService call): string matching, assumed"],
         assumptions=["parsed ASTs carry positions; local names are identifier tokens (parser)"]),
-    "C02": dict(units=["expr", "block", "lib", "tok", "args", "table", "stmt", "luau", "collapse", "bodies", "range"], bounded=[dict(kind="lib", witnesses="C02_BOUNDED"), dict(kind="corpus", kinds=["tree", "literals"]), dict(kind="inject", kinds=["tree", "literals"]), dict(kind="range", kinds=["tree"])],
+    "C02": dict(units=["expr", "block", "lib", "tok", "args", "table", "stmt", "luau", "collapse", "bodies", "range", "lists", "assign"], bounded=[dict(kind="lib", witnesses="C02_BOUNDED"), dict(kind="corpus", kinds=["tree", "literals"]), dict(kind="inject", kinds=["tree", "literals"]), dict(kind="range", kinds=["tree"])],
         explanation="expression spine: same obligations as C05 (operator tree, leaves, operators) plus line safety (code printed behind a line comment silently disappears: D25, D32, D33); "
                     "statements of a block are the input's, in order (format_block invariant); token layer: names/symbols/numbers/strings per fmt_tt; call sugar keeps the single argument (args_sem); "
                     "table fields keep kind, key and value trees (format_field, format_field_expression_value); a condition loses at most its top-level parentheses; "
@@ -145,8 +147,14 @@ PROPS = {
                     "(no elseif / else), and format_if — collapsed or not — returns an `if` with the same number of statements in every block, the same branches and the same condition. "
                     "Unit bodies (real text): format_do_block / format_while_block / format_repeat_block / format_else_if / format_numeric_for / format_generic_for return a node whose body has the statement census "
                     "format_block returns for the input's body and whose condition / bounds / names / expression list are the input's (modulo redundant parentheses and the top-level pair of a condition), on every layout path. "
-                    "Bounded (labelled): Luau type witnesses, collapse witnesses, call-behind-comment witnesses, corpus sweep (tree and literal values).",
-        not_decided=["function declarations (names, parameters, Luau annotations; the body's statement census is covered by format_function_body), assignments, returns, Luau type declarations: not under contract; format_stmt's dispatch assumes they rebuild the same statement (class C stubs)",
+                    "Unit lists (real text, real loops, closure specifications): format_punctuated / format_punctuated_multiline / format_contained_punctuated_multiline / try_format_punctuated return as many items as they were given, item i being what the "
+                    "item formatter they were passed returns for item i (modulo the trivia they add); every call site under contract instantiates that with the contract of the named formatter it passes. "
+                    "Unit assign (real text): attempt_assignment_tactics, format_assignment_no_trivia, format_local_no_assignment, format_local_assignment_no_trivia and format_return return the same number of variables / names / values, "
+                    "value i being the input's value i modulo redundant parentheses, on every layout path (one line, hung, one value per line — the zip/enumerate loop with its two `map` closures under closure contracts). "
+                    "Unit table: format_table_constructor / format_multiline_table / format_singleline_table return as many fields as the input, field i by format_field for the context reached after i-1 fields. "
+                    "Bounded (labelled): Luau type witnesses, collapse witnesses, call-behind-comment witnesses, list / assignment / return witnesses at every width 10..120, corpus sweep (tree and literal values).",
+        not_decided=["parameters and Luau annotations of function declarations, Luau type declarations, compound assignments, goto / label / attributes, if-expressions and interpolated strings: not under contract; format_stmt's dispatch assumes they rebuild the same statement (class C stubs)",
+                     "assignments and returns: hang_punctuated_list / hang_equal_token / format_var are class C stubs (same list, same token, same variable); the one-value hanging path is therefore assumed, the multi-value paths are verified",
                      "the census / condition contracts of the unit bodies are stated per node; that format_stmt's stub contract `same statement` follows from them is not proved (the two vocabularies are not connected)",
                      "Luau types: the arms of format_type_info_internal that build arrays, callbacks, generics, tables, typeof and module types are behind one wrapper without contract (the types nested in them are formatted by calls the unit does not follow); "
                      "the list formatter of the types inside parentheses takes a closure that recurses: its result is assumed to have as many types as its input"],
@@ -360,7 +368,13 @@ ATTR_COMMENT_WITNESSES = [w('local x <const> -- x\n = 1\nlocal y <const>, z <clo
 D30_TREE_FINDINGS = []
 OPEN_C03_FINDINGS = [w('local a = { c -- k\n = bar() }\n', oracle="comments"),   # D29
     w('local t = { a -- c\n, -- d\n b }\n', oracle="comments"), w('foo(a -- c\n, -- d\n b)\n', oracle="comments"), w('return a -- c\n, -- d\n b\n', oracle="comments")]   # D28, one per formatter
+LIST_WITNESSES = [w('local aaaa, bbbb, cccc = ffff(1111, 2222), gggg(3333), hhhh -- c\naaaa.b, cccc[1] = xxxx + yyyy * zzzz, function() return 1 end\nfoo(aaaa, bbbb, { cccc = 1 }, function() return dddd, eeee end)\nfunction m.a.b:c(pppp, qqqq, ...) return pppp, qqqq, ... end\n', oracle="tree", sweep=(10, 120)),
+                  w('for kkkk, vvvv in pairs(tttt), nil, nil do end\nlocal t = { aaaa = 1, [2] = bbbb, cccc, dddd = { eeee, ffff }; gggg }\nlocal u = {\n  1, 2;\n  3 }\n', oracle="tree", sweep=(10, 120))]
+RETURN_WITNESSES = [w('local function f()\n  return -- c\n    aaaa(1111), bbbb + cccc * dddd, eeee\nend\nlocal function g() return function() end, { 1, 2 } end\nlocal function h()\n  return aaaa and bbbb or cccc, -- d\n    dddd\nend\nreturn\n', oracle="tree", sweep=(10, 120)),
+                    w('return aaaa(1111), bbbb + cccc * dddd, { eeee = ffff }, function() return 1 end\n', oracle="tree", sweep=(10, 120))]
 WITNESSES = {
+    "C02.list_": LIST_WITNESSES, "C02.assignment": LIST_WITNESSES, "C02.local_assignment": LIST_WITNESSES, "C02.return_": RETURN_WITNESSES,
+    "C02.table_": LIST_WITNESSES[1:] + TABLE_COMMENT_WITNESSES, "C08.table_": LIST_WITNESSES[1:] + BLOCK_WITNESSES, "C02.function_name": LIST_WITNESSES[:1], "C02.argument_multiline": LIST_WITNESSES[:1],
     "C03.condition": COND_COMMENT_WITNESSES, "C02.condition": COND_COMMENT_WITNESSES,
     "C02.stmt": COLLAPSE_WITNESSES, "C02.if_guard": COLLAPSE_WITNESSES, "C02.simple_block": COLLAPSE_WITNESSES, "C02.collapsed_function": COLLAPSE_WITNESSES, "C02.format_if": COLLAPSE_WITNESSES + COND_COMMENT_WITNESSES,
     "C02.do_keeps": LOOP_WITNESSES, "C02.while_keeps": LOOP_WITNESSES, "C02.repeat_keeps": LOOP_WITNESSES, "C02.elseif_keeps": LOOP_WITNESSES, "C02.numeric_for": LOOP_WITNESSES, "C02.generic_for": LOOP_WITNESSES,
